@@ -51,7 +51,8 @@ RULE = ("random model definitions (shared generator, lambda back-end; an extra e
         "value, scalar, str, None, list of str.  Numbers are passed as Python float / int, numpy float64 / int64 / int32 "
         "scalars or mixed, arrays as float64 / int64 / int32 (integer types with integer values); 8% of the assignments repeat an earlier one "
         "(values restored after others were in force); after 30% of the accepted assignments the CALLER overwrites the container he passed; every container passed is compared with its snapshot "
-        "after the call and again at the end of the history.  In 35% of the cases the history also contains copy.deepcopy of "
+        "after the call and again at the end of the history (a container written to is a recorded side effect - a tag -, never "
+        "a violation: only wrong evaluations are).  In 35% of the cases the history also contains copy.deepcopy of "
         "a live instance at a random moment (at most 3 live instances; assignments then go to a random instance, 60% to "
         "the new copy), transient copy.copy / pickle round trips (evaluated once, then given other values and dropped); "
         "after EVERY operation EVERY live instance is evaluated (state passed as list / tuple / ndarray / list of numpy "
@@ -700,8 +701,7 @@ def run_case(case):
         snap = snapshot(xa)
         r = evaluate(inst_model, xa, ta)
         if snapshot(xa) != snap:
-            viol.append({"what": "ode/grad modified the state container they were given", "signature": "argument-modified:%s" % form,
-                         "detail": "passed %s, afterwards %s" % (snap, snapshot(xa))})
+            tags.append("side-effect:argument-modified:%s" % form)       # a side effect, not a wrong value: recorded only
         return r
 
     insts[0]["prev"] = ev(model, 0)
@@ -791,8 +791,20 @@ def run_case(case):
                         except Exception:
                             cls = "non-numeric"
                         break
+            if pv_py is not None and len(pv_py) == n and any(isinstance(a, np.integer) for a in pv_py):
+                # is it the BINDING, or fixed-width integer arithmetic on values that are bound to the right names?  A fresh
+                # model assigned, positionally, the expected values in the same numpy integer types tells (independent of
+                # the instance under test)
+                try:
+                    typed = [type(a)(int(e)) if isinstance(a, np.integer) and Fraction(e).denominator == 1 else float(e)
+                             for a, e in zip(pv_py, expected)]
+                    ref.parameters = typed
+                    if same_eval(evaluate(ref, x, t), now_eval):
+                        cls = "numpy-integer-overflow:" + "+".join(sorted(set(type(a).__name__ for a in pv_py if isinstance(a, np.integer))))
+                except Exception:
+                    pass
             viol.append({"what": "%s: the evaluations do not use the values given by name: %s" % (what_prefix, wrong),
-                         "signature": sig_of(cls),
+                         "signature": cls if cls.startswith("numpy-integer-overflow") else sig_of(cls),
                          "detail": "%s ; expected name->value %s ; _paramValue=%s ; history=%s" % (
                              where, {k: str(v) for k, v in cur.items()}, getattr(m, "_paramValue", None), json.dumps(hist[:idx + 1]))[:2500]})
 
@@ -882,8 +894,8 @@ def run_case(case):
                 tags.append("assign_to_copy")
             # the caller's container: untouched by the setter; then (scribble) re-used by the caller
             if snapshot(pyobj) != snap:
-                viol.append({"what": "the setter modified the container it was given", "signature": "caller-container-modified:%s" % op["cls"],
-                             "detail": "%s: passed %s, afterwards %s" % (where, snap, snapshot(pyobj))})
+                # a side effect on the caller's object with (so far) correct evaluations: recorded, not a violation of C09
+                tags.append("side-effect:caller-container-modified:%s" % op["cls"])
             if accepted and op.get("scribble") and scribble(pyobj):
                 tags.append("caller_overwrites_container_afterwards")
             elif pyobj is not None and not isinstance(pyobj, (str, float, int)):
@@ -941,12 +953,9 @@ def run_case(case):
         if viol or mism:
             break
     # what the caller passed in is still what he passed (nothing holds on to it and writes to it later)
-    if not (viol or mism):
-        for obj, snap, cls in passed:
-            if snapshot(obj) != snap:
-                viol.append({"what": "a container passed to the setter earlier was modified later", "signature": "caller-container-modified-later:%s" % cls,
-                             "detail": "passed %s, at the end of the history %s" % (snap, snapshot(obj))})
-                break
+    for obj, snap, cls in passed:
+        if snapshot(obj) != snap:
+            tags.append("side-effect:caller-container-modified-later:%s" % cls)      # recorded only
     if len(insts) > 1:
         tags.append("instances=%d" % len(insts))
     if case.get("malformed"):
